@@ -46,7 +46,9 @@ SPECIAL_DEFAULT = ['\\verb|a{b|', '\\begin{verbatim}{{\\end{verbatim}', '\\begin
                    '\\cite[a][b]{k}', '\\section*{t}',
                    # the same kind of argument read under different whitespace rules (line-break macro vs ordinary calls)
                    'a \\\\ [x] b', 'a \\\\[2mm] b', '\\section [s]{t}', '\\begin{enumerate} [(i)]\\item a\\end{enumerate}',
-                   '\\cite[see] [p. 3]{k}', '\\sqrt [3]{x}', '\\sqrt[3]{x}']
+                   '\\cite[see] [p. 3]{k}', '\\sqrt [3]{x}', '\\sqrt[3]{x}',
+                   # a long flat document and a short, deeply nested one (the latter exhausts the recursion limit)
+                   'word ' * 500, '{' * 220 + 'x' + '}' * 220, '\\textbf{' * 70 + 'y' + '}' * 70]
 # documents whose reading depends on which of them instantiated a shared argument parser first: all orderings are run
 ORDER_SENSITIVE = {'default': ['a \\\\ [x] b', '\\sqrt[3]{x}', '\\cite[see] [p. 3]{k}'],
                    'custom': ['x \\\\ [y] z', '\\txto [a]{b}', 'x \\\\[y] \\txto[a]{b}']}
@@ -127,6 +129,17 @@ def _shallow(v):
 PROCESS_LOG = []        # every parse call made in this process, in order: [s, tolerant, ctx description]
 
 
+def interpreter_state():
+    """Settings of the interpreter that a parse has no business changing (its result would then depend on what ran
+    before it)."""
+    import sys, os, locale, decimal, threading
+    return {'recursionlimit': sys.getrecursionlimit(), 'cwd': os.getcwd(), 'sys.path': len(sys.path),
+            'switchinterval': sys.getswitchinterval(), 'locale': locale.setlocale(locale.LC_ALL),
+            'decimal.prec': decimal.getcontext().prec, 'threads': threading.active_count(),
+            'warnings.filters': len(__import__('warnings').filters), 'trace': sys.gettrace() is not None,
+            'umask-free-env': os.environ.get('PYTHONHASHSEED')}
+
+
 def check_case(case, rec, refs=None):
     """case: {'ctx': default desc, 'calls': [[doc, tolerant(, ctx desc)], ...]}.  The calls are appended to
     the process-wide log; a violation is reported with the *whole* log so that a replay in a fresh
@@ -147,18 +160,26 @@ def check_case(case, rec, refs=None):
                 refs[key] = None
         ref = refs[key]
         before = db_snapshot(ctx)
+        gbefore = interpreter_state()
         PROCESS_LOG.append([s, tol, cdesc, shared])
         got = json.loads(json.dumps(one_parse({'s': s, 'ctx': cdesc, 'tolerant': tol,
                                                'shared_parser': shared})))
         if shared:
             rec.monitor('parses_with_shared_parser_object')
         after = db_snapshot(ctx)
+        gafter = interpreter_state()
         rec.monitor('db_snapshots_compared')
         rec.hist('mode', 'tolerant' if tol else 'strict')
         rec.hist('outcome', got['outcome'])
         if '\\vv' in s or '\\verb' in s:
             rec.monitor('verbatim_arg_documents')
         full = {'ctx': case.get('ctx'), 'calls': list(PROCESS_LOG), 'shared_parser': bool(case.get('shared_parser'))}
+        if gbefore != gafter:
+            rec.violation(full, 'parsing a %d-character input (call %d of the process, tolerant=%r) changed interpreter-wide '
+                          'state: %r' % (len(s), len(PROCESS_LOG) - 1, tol,
+                                         {k: (gbefore[k], gafter[k]) for k in gbefore if gbefore[k] != gafter[k]}),
+                          mech='interpreter-state-modified')
+            return
         if before != after:
             diff = [k for k in before if before[k] != after.get(k)]
             rec.violation(full, 'parsing %r (call %d of the process, tolerant=%r) modified the context database '
